@@ -10,6 +10,14 @@
     E <conn> <from> <originzone> <objzone> <method> <var> | a= s= p= oz= ts= old= bad= x= m=
         one network step through a REAL cluster event handler; compared with `reRelay`, `specCase` with the origin of the wire message
     P <objzone> <kind> <del> <target> | p= r= x=             the replay path; compared with `replaySends`, `specReplay`
+    L <conn> <client> <fromzone> <objzone> <kind> <target> <pre> <post> | s= k= p= lp= r= x=
+        log positions across a reconnect (real SetLogPositionHandler, relay, RemoveClient/AddClient, ReplayLog); compared with `logRun`,
+        `specLog` on what the reconnecting endpoint was handed
+    Q <a> <b> <objzone> <kind> <target> <conn a> <conn b> | sa= pa= ra= ab= sb= pb= rb= x=
+        the two members of a zone and one event; compared with `pairRun`, `specPair` on the copies handed over by the two together
+    N <orig> <objzone> <kind> <matrix> <mode> | proc= disc= pers= sched= left= x=
+        a whole propagation on the real code; compared with `start` / `deliver` along the same schedule, `specNet` / `specComplete` on the
+        implementation's own history
     H <method> <passesOrigin> <o|n> / H rows <k>             handler table extracted from clusterevents.cpp, compared with `handlers`
         one network step through the real MessageHandler; compared with the model's `deliver` (originOf, accept, relay)
   Output lines:
@@ -155,6 +163,19 @@ structure DSt where
   pPersisted : Nat := 0
   pReplayed : Nat := 0
   pDeleted : Nat := 0
+  lSteps : Nat := 0              -- L lines: log positions across a reconnect
+  lPersisted : Nat := 0
+  lReplayed : Nat := 0
+  lServedLogged : Nat := 0       -- … the reconnecting endpoint was connected, deliberately skipped, and the event was logged
+  lServedOldReport : Nat := 0    -- … and it then reported an OLDER position before it reconnected
+  qSteps : Nat := 0              -- Q lines: two members of a zone and one event
+  qBoth : Nat := 0               -- … the event reached the second member
+  qCopies : Nat := 0             -- … the reconnecting endpoint got exactly one copy from the two
+  qDouble : Nat := 0             -- … more than one
+  nSteps : Nat := 0              -- N lines: whole propagations on the real code
+  nDeliveries : Nat := 0
+  nComplete : Nat := 0           -- … that met the completeness sentence's hypothesis
+  nMaxProcessed : Nat := 0
   hRows : Nat := 0               -- rows of the handler table extracted from the source
 
 /-- which guard decided for endpoint `e` of zone `cz` (for the branch histogram; replays the loop's `relayed`) -/
@@ -253,8 +274,14 @@ def handle (d : DSt) (n : Nat) (line : String) : IO DSt := do
         if ts != "1" then
           IO.println s!"MISMATCH line={n} case={d.caseNo} op=ts impl={ts} model=1"
           d := { d with mismatches := d.mismatches + 1 }
-        if old != "0" then
-          IO.println s!"MISMATCH line={n} case={d.caseNo} op=old impl={old} model=0"
+        -- SyncSendMessage's newest-connection rule: an endpoint with two connections (created at different times) gets the
+        -- message on the newer one only; `old` counts the copies found on the older ones
+        let stampsOf := fun (e : Ep) => match connA[e]? with
+          | some '2' => [1, 2] | some 't' => [1, 2] | some '1' => [2] | some 's' => [2] | _ => []
+        let mOld := r.sent.foldl (fun acc e => acc + ((syncSend (syncF self e) (stampsOf e)).filter (fun t => t != maxStamp (stampsOf e))).length) 0
+        let mNewest := sortNat (r.sent.filter (fun e => (syncSend (syncF self e) (stampsOf e)).contains (maxStamp (stampsOf e))))
+        if old != toString mOld || (mNewest != mSent) then
+          IO.println s!"MISMATCH line={n} case={d.caseNo} op=old impl={old} model={mOld}"
           d := { d with mismatches := d.mismatches + 1 }
         if obsMaster.isSome && obsMaster != getMaster T self then
           IO.println s!"MISMATCH line={n} case={d.caseNo} op=master impl={showOpt obsMaster} model={showOpt (getMaster T self)}"
@@ -497,6 +524,197 @@ def handle (d : DSt) (n : Nat) (line : String) : IO DSt := do
         return d
       | _, _, _, _, _, _ => IO.println s!"BADLINE line={n}"; return d
     | _, _ => IO.println s!"BADLINE line={n}"; return d
+  | "L" :: rest =>
+    -- log positions across a reconnect: SetLogPositionHandler, the skipped endpoints of RelayMessageOne, ReplayLog
+    let (pre, post) := splitBar rest
+    match d.topo, pre with
+    | some t, [conn, client, fz, oz, kind, target, rpre, rpost] =>
+      let connA := conn.toList.toArray
+      let client? : Option (Option Ep) := if client == "n" || client == "-" then some none else (parseNat? client).map some
+      let fz? : Option (Option Zone) := if fz == "-" then some none else (parseNat? fz).map some
+      let oz? : Option (Option Zone) := if oz == "-" then some none else (parseNat? oz).map some
+      let ts : Int := 1000
+      let pos? : String → Option (List Int) := fun s =>
+        if s == "-" then some [] else s.toList.mapM (fun ch => if ch == 'b' then some (ts - 60) else if ch == 'e' then some ts else if ch == 'a' then some (ts + 1) else none)
+      let lp? : Option Int := match kvOf post "lp" with
+        | some "z" => some 0
+        | some s => if s.startsWith "-" then (parseNat? (s.drop 1).toString).map (fun k => ts - (k : Int)) else (parseNat? s).map (fun k => ts + (k : Int))
+        | none => none
+      match client?, fz?, oz?, parseNat? target, pos? rpre, pos? rpost, (kvOf post "s").bind parseList, (kvOf post "k").bind parseList,
+            (kvOf post "p").bind parseBool?, lp?, (kvOf post "r").bind parseNat?, (kvOf post "x").bind parseNat? with
+      | some cl, some fz, some oz, some target, some rpre, some rpost, some sent, some skipped, some persist, some lp, some copies, some others =>
+        if connA.size != t.zoneOf.size then
+          IO.println s!"BADLINE line={n}"; return d
+        let connF := fun (_ : Ep) (e : Ep) => match connA[e]? with | some c => isConnCh c | none => false
+        let syncF := fun (_ : Ep) (e : Ep) => match connA[e]? with | some c => isSyncCh c | none => false
+        let T := t.topo connF syncF
+        let self := t.self
+        let o : Origin := ⟨cl, fz⟩
+        let c : Case := ⟨self, o, oz, true⟩
+        let ro : RecObj := if kind == "n" then .absent else .present oz
+        let run := fun (T : Topo) => logRun T self o oz true target rpre rpost ts ro
+        let agrees := fun (T : Topo) => let m := run T
+          sortNat (queued T self m.result) == sent && sortNat m.result.skipped == skipped && m.result.persist == persist &&
+          m.lpos == lp && m.copies == copies
+        let mut d := { d with lSteps := d.lSteps + 1, steps := d.steps + 1 }
+        if !agrees T then
+          if (allOrders t).any (fun ord => agrees ({ t with order := ord }.topo connF syncF)) then
+            d := { d with orderFree := d.orderFree + 1 }
+          else
+            let m := run T
+            if sortNat (queued T self m.result) != sent then
+              IO.println s!"MISMATCH line={n} case={d.caseNo} op=log-sent impl={showList sent} model={showList (sortNat (queued T self m.result))}"
+              d := { d with mismatches := d.mismatches + 1 }
+            if sortNat m.result.skipped != skipped then
+              IO.println s!"MISMATCH line={n} case={d.caseNo} op=log-skipped impl={showList skipped} model={showList (sortNat m.result.skipped)}"
+              d := { d with mismatches := d.mismatches + 1 }
+            if m.result.persist != persist then
+              IO.println s!"MISMATCH line={n} case={d.caseNo} op=log-persist impl={showBool persist} model={showBool m.result.persist}"
+              d := { d with mismatches := d.mismatches + 1 }
+            if m.lpos != lp then
+              IO.println s!"MISMATCH line={n} case={d.caseNo} op=log-position impl={lp - ts} model={m.lpos - ts}"
+              d := { d with mismatches := d.mismatches + 1 }
+            if m.copies != copies then
+              IO.println s!"MISMATCH line={n} case={d.caseNo} op=log-replay impl={copies} model={m.copies}"
+              d := { d with mismatches := d.mismatches + 1 }
+        if others != 0 then
+          IO.println s!"MISMATCH line={n} case={d.caseNo} op=log-others impl={others} model=0"
+          d := { d with mismatches := d.mismatches + 1 }
+        -- the property on the implementation's own observation
+        match specLog maxDepth T c target (rpre ++ rpost) ts { sent := sent, persist := persist, copies := copies } with
+        | some cl =>
+          IO.println s!"SPECFAIL line={n} case={d.caseNo} clause={cl.name}"
+          d := { d with specfails := d.specfails + 1 }
+        | none => pure ()
+        let served := concernedB maxDepth T c target && connF self target && !syncF self target && !sent.contains target
+        d := { d with lPersisted := d.lPersisted + (if persist then 1 else 0), lReplayed := d.lReplayed + (if copies != 0 then 1 else 0),
+                      lServedLogged := d.lServedLogged + (if served && persist then 1 else 0),
+                      lServedOldReport := d.lServedOldReport + (if served && persist && rpost.getLast? == some (ts - 60) then 1 else 0) }
+        if persist then
+          let key := hash (d.topoTxt ++ "|L " ++ " ".intercalate pre)
+          if !d.seen.contains key then
+            d := { d with seen := d.seen.insert key, nontrivial := d.nontrivial + 1 }
+        return d
+      | _, _, _, _, _, _, _, _, _, _, _, _ => IO.println s!"BADLINE line={n}"; return d
+    | _, _ => IO.println s!"BADLINE line={n}"; return d
+  | "Q" :: rest =>
+    -- the two members of a zone, one event, one endpoint that reconnects to both
+    let (pre, post) := splitBar rest
+    match d.topo, pre with
+    | some t, [a, b, oz, _kind, target, ca, cb] =>
+      match parseNat? a, parseNat? b, parseNat? oz, parseNat? target, (kvOf post "sa").bind parseList, (kvOf post "pa").bind parseBool?,
+            (kvOf post "ra").bind parseNat?, (kvOf post "ab").bind parseNat?, (kvOf post "sb").bind parseList, (kvOf post "pb").bind parseBool?,
+            (kvOf post "rb").bind parseNat?, (kvOf post "x").bind parseNat? with
+      | some a, some b, some oz, some target, some sa, some pa, some ra, some ab, some sb, some pb, some rb, some others =>
+        let caA := ca.toList.toArray
+        let cbA := cb.toList.toArray
+        if caA.size != t.zoneOf.size || cbA.size != t.zoneOf.size then
+          IO.println s!"BADLINE line={n}"; return d
+        let view := fun (s : Ep) => if s == a then caA else cbA
+        let connF := fun (s e : Ep) => e != s && (match (view s)[e]? with | some c => isConnCh c | none => false)
+        let ts : Int := 1000
+        let agrees := fun (T : Topo) => let m := pairRun T a b oz target ts
+          sortNat (queued T a m.a.result) == sa && m.a.result.persist == pa && m.a.copies == ra &&
+          (match m.b with
+           | some l => ab == 1 && sortNat (queued T b l.result) == sb && l.result.persist == pb && l.copies == rb
+           | none => (ab == 0 && sb.isEmpty && !pb && rb == 0))
+        let T := t.topo connF
+        let mut d := { d with qSteps := d.qSteps + 1, steps := d.steps + 1 }
+        if !agrees T then
+          if (allOrders t).any (fun ord => agrees ({ t with order := ord }.topo connF)) then
+            d := { d with orderFree := d.orderFree + 1 }
+          else
+            let m := pairRun T a b oz target ts
+            let mb := match m.b with | some l => s!"sb={showList (sortNat (queued T b l.result))} pb={showBool l.result.persist} rb={l.copies}" | none => "b-not-reached"
+            IO.println s!"MISMATCH line={n} case={d.caseNo} op=pair impl={" ".intercalate post} model=sa={showList (sortNat (queued T a m.a.result))} pa={showBool m.a.result.persist} ra={m.a.copies} {mb}"
+            d := { d with mismatches := d.mismatches + 1 }
+        if others != 0 then
+          IO.println s!"MISMATCH line={n} case={d.caseNo} op=pair-others impl={others} model=0"
+          d := { d with mismatches := d.mismatches + 1 }
+        let o : PairObs := { sentA := sa, replayA := ra, sentB := sb, replayB := rb }
+        match specPair maxDepth T a b oz target o with
+        | some cl =>
+          IO.println s!"SPECFAIL line={n} case={d.caseNo} clause={cl.name}"
+          d := { d with specfails := d.specfails + 1 }
+        | none => pure ()
+        d := { d with qBoth := d.qBoth + (if ab == 1 then 1 else 0), qCopies := d.qCopies + (if o.copies target == 1 then 1 else 0),
+                      qDouble := d.qDouble + (if o.copies target > 1 then 1 else 0) }
+        if o.copies target != 0 then
+          let key := hash (d.topoTxt ++ "|Q " ++ " ".intercalate pre)
+          if !d.seen.contains key then
+            d := { d with seen := d.seen.insert key, nontrivial := d.nontrivial + 1 }
+        return d
+      | _, _, _, _, _, _, _, _, _, _, _, _ => IO.println s!"BADLINE line={n}"; return d
+    | _, _ => IO.println s!"BADLINE line={n}"; return d
+  | "N" :: rest =>
+    -- a whole propagation on the real code, node by node; compared with `start` / `deliver`, `specNet` / `specComplete` on the
+    -- implementation's own history
+    let (pre, post) := splitBar rest
+    match d.topo, pre with
+    | some t, [orig, oz, _kind, matrix, _mode] =>
+      let rows := (matrix.splitOn "/").map (fun r => r.toList.toArray) |>.toArray
+      let sched? : Option (List (Nat × Nat)) := match kvOf post "sched" with
+        | some "-" => some []
+        | some s => (s.splitOn ",").mapM (fun p => match p.splitOn "." with
+            | [a, b] => match parseNat? a, parseNat? b with | some a, some b => some (a, b) | _, _ => none
+            | _ => none)
+        | none => none
+      match parseNat? orig, parseNat? oz, (kvOf post "proc").bind parseList, (kvOf post "disc").bind parseNat?, (kvOf post "pers").bind parseList,
+            sched?, (kvOf post "left").bind parseNat?, (kvOf post "x").bind parseNat? with
+      | some orig, some oz, some proc, some disc, some pers, some sched, some left, some others =>
+        let nep := t.zoneOf.size
+        if rows.size != nep || rows.any (fun r => r.size != nep) then
+          IO.println s!"BADLINE line={n}"; return d
+        let connF := fun (s e : Ep) => e != s && (match rows[s]? with | some r => r[e]? == some '1' | none => false)
+        let runModel := fun (T : Topo) => sched.foldl (fun (acc : Option Net) (p : Nat × Nat) => match acc with
+            | none => none
+            | some net => match net.inflight.findIdx? (fun m => m.to == p.1 && m.frm == p.2) with
+              | some i => some (deliver T oz net i)
+              | none => none) (some (start T orig oz))
+        let agrees := fun (T : Topo) => match runModel T with
+          | some net => net.processed == proc && net.discarded.length == disc && sortNat net.persisted == pers && net.inflight.length == left
+          | none => false
+        let T := t.topo connF
+        let mut d := { d with nSteps := d.nSteps + 1, steps := d.steps + 1, nDeliveries := d.nDeliveries + sched.length }
+        if !agrees T then
+          if (allOrders t).any (fun ord => agrees ({ t with order := ord }.topo connF)) then
+            d := { d with orderFree := d.orderFree + 1 }
+          else
+            let ms := match runModel T with
+              | some net => s!"proc={showList net.processed} disc={net.discarded.length} pers={showList (sortNat net.persisted)} left={net.inflight.length}"
+              | none => "a-delivery-the-model-has-no-message-for"
+            IO.println s!"MISMATCH line={n} case={d.caseNo} op=net impl={" ".intercalate post} model={ms}"
+            d := { d with mismatches := d.mismatches + 1 }
+        if others != 0 then
+          IO.println s!"MISMATCH line={n} case={d.caseNo} op=net-others impl={others} model=0"
+          d := { d with mismatches := d.mismatches + 1 }
+        -- the cluster-wide sentences on the implementation's own history (inside the property's quantifier: at most two endpoints
+        -- per zone, symmetric connectivity)
+        let allEps := List.range nep
+        let nz := t.parents.size
+        let inScope := (List.range nz).all (fun z => (allEps.filter (fun e => t.zoneOf[e]? == some z)).length ≤ 2) &&
+          allEps.all (fun a => allEps.all (fun b => connF a b == connF b a))
+        let hist : Net := { inflight := List.replicate left default, processed := proc, accepted := [], persisted := pers,
+                            discarded := List.replicate disc default }
+        if inScope then
+          match specNet T allEps orig oz hist with
+          | some cl =>
+            IO.println s!"SPECFAIL line={n} case={d.caseNo} clause=net_{cl.name}"
+            d := { d with specfails := d.specfails + 1 }
+          | none => pure ()
+          if left == 0 && mastersConnectedB T allEps (List.range nz) && netEntitledB T (T.zoneOf orig) oz (T.zoneOf orig) then
+            d := { d with nComplete := d.nComplete + 1 }
+            if !specComplete T allEps (List.range nz) orig oz hist then
+              IO.println s!"SPECFAIL line={n} case={d.caseNo} clause=net_incomplete_when_connected"
+              d := { d with specfails := d.specfails + 1 }
+        d := { d with nMaxProcessed := max d.nMaxProcessed proc.length }
+        if proc.length > 1 then
+          let key := hash (d.topoTxt ++ "|N " ++ " ".intercalate pre)
+          if !d.seen.contains key then
+            d := { d with seen := d.seen.insert key, nontrivial := d.nontrivial + 1 }
+        return d
+      | _, _, _, _, _, _, _, _ => IO.println s!"BADLINE line={n}"; return d
+    | _, _ => IO.println s!"BADLINE line={n}"; return d
   | "H" :: rest =>
     -- a row of the handler table as the translator reads it from lib/icinga/clusterevents.cpp
     match rest with
@@ -623,4 +841,4 @@ def main (args : List String) : IO Unit := do
     IO.println s!"SIMSTATS topologies={st.topos} runs={st.runs} deliveries={st.deliveries} fails={st.fails} complete_checked={st.complete} incomplete={st.incomplete} beyond_scope_topologies={st.beyondScope} beyond_scope_duplicates={st.beyondScopeDups} max_processed={st.maxProcessed} nontrivial={st.nontrivial}"
   | _ =>
     let d ← foldLines stdin handle ({} : DSt)
-    IO.println s!"STATS cases={d.caseNo} steps={d.steps} nontrivial={d.nontrivial} sends={d.sends} skips={d.skips} persisted={d.persisted} no_target={d.noTarget} b_self={d.bSelf} b_disconnected={d.bDisc} b_second_endpoint={d.bRelayed} b_origin_client={d.bClient} b_origin_zone={d.bFromZone} b_not_master={d.bMaster} b_sent={d.bSent} unrelated_zone={d.unrelated} global_object={d.globalObj} as_master={d.masterCases} origin_zone_set={d.originZoneSet} newest_of_two={d.twoConn} net_steps={d.dSteps} net_accepted={d.dAccepted} net_discarded={d.dDiscarded} net_origin_from_field={d.dOriginFromField} order_free={d.orderFree} syncing_cases={d.syncingCases} master_pairs={d.masterPairs} parent_chains={d.parentChains} event_steps={d.eSteps} event_processed={d.eProcessed} event_relayed={d.eRelayed} event_methods_relayed={d.eMethods.length} replay_steps={d.pSteps} replay_persisted={d.pPersisted} replay_replayed={d.pReplayed} replay_deleted_persisted={d.pDeleted} handler_rows={d.hRows} mismatches={d.mismatches} specfails={d.specfails}"
+    IO.println s!"STATS cases={d.caseNo} steps={d.steps} nontrivial={d.nontrivial} sends={d.sends} skips={d.skips} persisted={d.persisted} no_target={d.noTarget} b_self={d.bSelf} b_disconnected={d.bDisc} b_second_endpoint={d.bRelayed} b_origin_client={d.bClient} b_origin_zone={d.bFromZone} b_not_master={d.bMaster} b_sent={d.bSent} unrelated_zone={d.unrelated} global_object={d.globalObj} as_master={d.masterCases} origin_zone_set={d.originZoneSet} newest_of_two={d.twoConn} net_steps={d.dSteps} net_accepted={d.dAccepted} net_discarded={d.dDiscarded} net_origin_from_field={d.dOriginFromField} order_free={d.orderFree} syncing_cases={d.syncingCases} master_pairs={d.masterPairs} parent_chains={d.parentChains} event_steps={d.eSteps} event_processed={d.eProcessed} event_relayed={d.eRelayed} event_methods_relayed={d.eMethods.length} replay_steps={d.pSteps} replay_persisted={d.pPersisted} replay_replayed={d.pReplayed} replay_deleted_persisted={d.pDeleted} log_steps={d.lSteps} log_persisted={d.lPersisted} log_replayed={d.lReplayed} log_served_and_logged={d.lServedLogged} log_served_logged_old_report={d.lServedOldReport} pair_steps={d.qSteps} pair_both={d.qBoth} pair_one_copy={d.qCopies} pair_double={d.qDouble} real_propagations={d.nSteps} real_deliveries={d.nDeliveries} real_complete_checked={d.nComplete} real_max_processed={d.nMaxProcessed} handler_rows={d.hRows} mismatches={d.mismatches} specfails={d.specfails}"
